@@ -266,9 +266,9 @@ func vpH_C13_step_id_forms() {
 func vpH_C13_step3_items() { vpC13Step(0, 3, 1) }
 func vpH_C13_step3_coll()  { vpC13Step(3, 3, 1) }
 
-func vpT_C13_hist4_items() { vpC13Hist(0, 4, 3, 2) }
-func vpT_C13_hist4_iris()  { vpC13Hist(1, 4, 3, 1) }
-func vpT_C13_hist4_kinds() { vpC13Hist(2+vpChoice(4), 4, 2, 4) }
+func vpT_C13_hist4_items()  { vpC13Hist(0, 4, 3, 2) }
+func vpT_C13_hist4_iris()   { vpC13Hist(1, 4, 3, 1) }
+func vpT_C13_hist4_kinds()  { vpC13Hist(2+vpChoice(4), 4, 2, 4) }
 func vpT_C13_step3_kinds()  { vpC13Step(vpChoice(vpC13Kinds), 3, 1) }
 func vpT_C13_step3_shapes() { vpC13Step([]int{0, 3}[vpChoice(2)], 3, 2) }
 
